@@ -70,4 +70,13 @@ theorem C06_total (max : Nat) (sched : Bool) (es : List SrvEvent) :
     ((Srv.run max sched (.reading [] false) es).2.filter isInvoke).length ≤ 1 :=
   C02_at_most_once max sched _ es
 
+
+/-- **What a hostile peer can reach is the per-stream sequence** the confinement theorems are about (read off the source on this run): one task per bidirectional stream running read - stamp - serve raced with stop - write - finish - wait; unidirectional streams are dropped, datagrams ignored. -/
+theorem C06_rpc_path_is_translated :
+    Gen.serveStepsGen = [.readRequest, .stampPeerId, .stampOrigin, .stampRemoteAddr, .stampInbound,
+                         .raceHandlerWithStop, .writeResponse, .finishSend, .awaitStopped, .returnOk] ∧
+    Gen.callStepsGen = [.openBi, .frameSend, .frameRecv, .writeRequest, .finishSend, .readResponse,
+                        .stampResponsePeerId, .returnResponse] ∧
+    Gen.rpcPathShapeChecked = true := ⟨rfl, rfl, rfl⟩
+
 end Anemo
